@@ -546,3 +546,434 @@ pub(crate) fn mapper_step_one<'a>(
         iterate_without_lines(frame, &mut it)
     }
 }
+
+// ------------------------------------------------------------------ Tier P (builder through record injection)
+use crate::mapping::{LineMapping, ParseError};
+use crate::verif_support::inject;
+
+fn rec_class(original: &'static str, obfuscated: &'static str) -> inject::Item {
+    Ok(ProguardRecord::Class { original, obfuscated })
+}
+
+fn rec_method(original: &'static str, obfuscated: &'static str, arguments: &'static str, original_class: Option<&'static str>, lm: Option<LineMapping>) -> inject::Item {
+    Ok(ProguardRecord::Method { ty: "void", original, obfuscated, arguments, original_class, line_mapping: lm })
+}
+
+fn any_lm() -> Option<LineMapping> {
+    if kani::any() {
+        let s: usize = kani::any();
+        let e: usize = kani::any();
+        kani::assume(s > 0 && e > 0);
+        let os: Option<usize> = if kani::any() { Some(kani::any()) } else { None };
+        let oe: Option<usize> = if os.is_some() && kani::any() { Some(kani::any()) } else { None };
+        Some(LineMapping { startline: s, endline: e, original_startline: os, original_endline: oe })
+    } else {
+        None
+    }
+}
+
+#[kani::proof]
+#[kani::stub(crate::mapping::parse_proguard_record, inject::parse_stub)]
+#[kani::stub(crate::mapper::extract_class_name, extract_class_name_stub)]
+#[kani::unwind(6)]
+fn p_mapper_build_2() {
+    let recs: [inject::Item; 2] = [rec_class("A", "a"), rec_method("f", "m", "", None, any_lm())];
+    let src = inject::set(&recs);
+    let mapper = ProguardMapper::new(ProguardMapping::new(src));
+    assert!(mapper.remap_class("a") == Some("A"));
+    let line: usize = kani::any();
+    let mut it = mapper.remap_frame(&StackFrame::new("a", "m", line));
+    let f = it.next();
+    kani::cover!(f.is_some());
+    kani::cover!(f.is_none());
+    core::mem::forget(mapper);
+}
+
+#[kani::proof]
+#[kani::stub(crate::mapping::parse_proguard_record, inject::parse_stub)]
+#[kani::unwind(6)]
+fn p_dbg_iter() {
+    let recs: [inject::Item; 2] = [rec_class("A", "a"), rec_method("f", "m", "", None, any_lm())];
+    let src = inject::set(&recs);
+    let mapping = ProguardMapping::new(src);
+    let mut it = mapping.iter();
+    let a = it.next();
+    assert!(matches!(a, Some(Ok(ProguardRecord::Class { .. }))));
+    let b = it.next();
+    assert!(matches!(b, Some(Ok(ProguardRecord::Method { .. }))));
+    assert!(it.next().is_none());
+}
+
+#[kani::proof]
+#[kani::stub(crate::mapping::parse_proguard_record, inject::parse_stub)]
+#[kani::unwind(6)]
+fn p_dbg_peek() {
+    use crate::verif_support::util::OkOnlyExt;
+    let recs: [inject::Item; 2] = [rec_class("A", "a"), rec_method("f", "m", "", None, any_lm())];
+    let src = inject::set(&recs);
+    let mapping = ProguardMapping::new(src);
+    let mut it = mapping.iter().verif_ok_only().peekable();
+    let a = it.next();
+    assert!(matches!(a, Some(ProguardRecord::Class { .. })));
+    assert!(matches!(it.peek(), Some(ProguardRecord::Method { .. })));
+    let b = it.next();
+    assert!(matches!(b, Some(ProguardRecord::Method { .. })));
+    assert!(it.peek().is_none());
+    assert!(it.next().is_none());
+}
+
+#[kani::proof]
+#[kani::stub(crate::mapping::parse_proguard_record, inject::parse_stub)]
+#[kani::unwind(6)]
+fn p_dbg_build1() {
+    let recs: [inject::Item; 1] = [rec_class("A", "a")];
+    let src = inject::set(&recs);
+    let mapper = ProguardMapper::new(ProguardMapping::new(src));
+    assert!(mapper.remap_class("a") == Some("A"));
+    core::mem::forget(mapper);
+}
+
+#[kani::proof]
+#[kani::unwind(6)]
+fn p_dbg_manual() {
+    let mut classes = HashMap::new();
+    let mut class = ClassMapping { original: "", obfuscated: "", file_name: None, members: HashMap::new() };
+    let mut unique_methods: HashSet<(&str, &str, &str)> = HashSet::new();
+    if !class.original.is_empty() {
+        classes.insert(class.obfuscated, class);
+    }
+    class = ClassMapping { original: "A", obfuscated: "a", file_name: None, members: HashMap::new() };
+    unique_methods.clear();
+    if !class.original.is_empty() {
+        classes.insert(class.obfuscated, class);
+    }
+    let mapper = ProguardMapper { classes };
+    assert!(mapper.remap_class("a") == Some("A"));
+    core::mem::forget(mapper);
+}
+
+#[kani::proof]
+#[kani::stub(crate::mapping::parse_proguard_record, inject::parse_stub)]
+#[kani::unwind(6)]
+fn p_dbg_manual2() {
+    use crate::verif_support::util::OkOnlyExt;
+    let recs: [inject::Item; 1] = [rec_class("A", "a")];
+    let src = inject::set(&recs);
+    let mapping = ProguardMapping::new(src);
+    let mut classes = HashMap::new();
+    let mut class = ClassMapping { original: "", obfuscated: "", file_name: None, members: HashMap::new() };
+    let mut unique_methods: HashSet<(&str, &str, &str)> = HashSet::new();
+    let mut records = mapping.iter().verif_ok_only().peekable();
+    while let Some(record) = records.next() {
+        match record {
+            ProguardRecord::Class { original, obfuscated } => {
+                if !class.original.is_empty() {
+                    classes.insert(class.obfuscated, class);
+                }
+                class = ClassMapping { original, obfuscated, file_name: None, members: HashMap::new() };
+                unique_methods.clear();
+            }
+            _ => {}
+        }
+    }
+    if !class.original.is_empty() {
+        classes.insert(class.obfuscated, class);
+    }
+    let mapper = ProguardMapper { classes };
+    assert!(mapper.remap_class("a") == Some("A"));
+    core::mem::forget(mapper);
+}
+
+macro_rules! dbg3 {
+    ($name:ident, $peek:expr, $cond:expr, $uniq:expr) => {
+#[kani::proof]
+#[kani::stub(crate::mapping::parse_proguard_record, inject::parse_stub)]
+#[kani::unwind(6)]
+fn $name() {
+    use crate::verif_support::util::OkOnlyExt;
+    let recs: [inject::Item; 1] = [rec_class("A", "a")];
+    let src = inject::set(&recs);
+    let mapping = ProguardMapping::new(src);
+    let mut classes = HashMap::new();
+    let mut class = ClassMapping { original: "", obfuscated: "", file_name: None, members: HashMap::new() };
+    let mut unique_methods: HashSet<(&str, &str, &str)> = HashSet::new();
+    let mut records = mapping.iter().verif_ok_only();
+    while let Some(record) = records.next() {
+        match record {
+            ProguardRecord::Class { original, obfuscated } => {
+                if $cond {
+                if !class.original.is_empty() {
+                    classes.insert(class.obfuscated, class);
+                }
+                }
+                class = ClassMapping { original, obfuscated, file_name: None, members: HashMap::new() };
+                if $uniq { unique_methods.clear(); }
+            }
+            _ => {}
+        }
+    }
+    if !class.original.is_empty() {
+        classes.insert(class.obfuscated, class);
+    }
+    let mapper = ProguardMapper { classes };
+    assert!(mapper.remap_class("a") == Some("A"));
+    core::mem::forget(mapper);
+}
+    };
+}
+dbg3!(p_dbg3_a, false, true, true);
+dbg3!(p_dbg3_b, false, false, true);
+dbg3!(p_dbg3_c, false, false, false);
+
+#[kani::proof]
+#[kani::unwind(6)]
+fn p_dbg4() {
+    let recs: [ProguardRecord<'static>; 1] = [ProguardRecord::Class { original: "A", obfuscated: "a" }];
+    let mut classes = HashMap::new();
+    let mut class = ClassMapping { original: "", obfuscated: "", file_name: None, members: HashMap::new() };
+    let mut records = recs.iter().cloned();
+    while let Some(record) = records.next() {
+        match record {
+            ProguardRecord::Class { original, obfuscated } => {
+                class = ClassMapping { original, obfuscated, file_name: None, members: HashMap::new() };
+            }
+            _ => {}
+        }
+    }
+    if !class.original.is_empty() {
+        classes.insert(class.obfuscated, class);
+    }
+    let mapper = ProguardMapper { classes };
+    assert!(mapper.remap_class("a") == Some("A"));
+    core::mem::forget(mapper);
+}
+
+#[kani::proof]
+#[kani::unwind(6)]
+fn p_dbg5() {
+    let mut classes = HashMap::new();
+    let mut class = ClassMapping { original: "", obfuscated: "", file_name: None, members: HashMap::new() };
+    let mut i = 0;
+    while i < 1 {
+        class = ClassMapping { original: "A", obfuscated: "a", file_name: None, members: HashMap::new() };
+        i += 1;
+    }
+    if !class.original.is_empty() {
+        classes.insert(class.obfuscated, class);
+    }
+    let mapper = ProguardMapper { classes };
+    assert!(mapper.remap_class("a") == Some("A"));
+    core::mem::forget(mapper);
+}
+
+#[kani::proof]
+#[kani::stub(crate::mapping::parse_proguard_record, inject::parse_stub)]
+#[kani::unwind(6)]
+fn p_dbg_iter2() {
+    let recs: [inject::Item; 1] = [rec_class("A", "a")];
+    let src = inject::set(&recs);
+    let mapping = ProguardMapping::new(src);
+    let mut it = mapping.iter();
+    match it.next() {
+        Some(Ok(ProguardRecord::Class { original, obfuscated })) => {
+            assert!(original.len() == 1);
+            assert!(original == "A" && obfuscated == "a");
+        }
+        _ => panic!("no"),
+    }
+}
+
+#[kani::proof]
+#[kani::stub(crate::mapping::parse_proguard_record, inject::parse_stub)]
+#[kani::unwind(6)]
+fn p_dbg6() {
+    let recs: [inject::Item; 1] = [rec_class("A", "a")];
+    let src = inject::set(&recs);
+    let mapping = ProguardMapping::new(src);
+    let mut class = ClassMapping { original: "", obfuscated: "", file_name: None, members: HashMap::new() };
+    let mut records = mapping.iter();
+    while let Some(record) = records.next() {
+        match record {
+            Ok(ProguardRecord::Class { original, obfuscated }) => {
+                class = ClassMapping { original, obfuscated, file_name: None, members: HashMap::new() };
+            }
+            _ => {}
+        }
+    }
+    assert!(class.original == "A");
+    core::mem::forget(class);
+}
+
+#[kani::proof]
+#[kani::stub(crate::mapping::parse_proguard_record, inject::parse_stub)]
+#[kani::unwind(6)]
+fn p_dbg7() {
+    let recs: [inject::Item; 1] = [rec_class("A", "a")];
+    let src = inject::set(&recs);
+    let mapping = ProguardMapping::new(src);
+    let mut orig = "";
+    let mut records = mapping.iter();
+    while let Some(record) = records.next() {
+        match record {
+            Ok(ProguardRecord::Class { original, obfuscated }) => {
+                orig = original;
+            }
+            _ => {}
+        }
+    }
+    assert!(orig == "A");
+}
+
+#[kani::proof]
+#[kani::unwind(6)]
+fn p_dbg8() {
+    let recs: [inject::Item; 1] = [rec_class("A", "a")];
+    let src = inject::set(&recs);
+    let mapping = ProguardMapping::new(src);
+    let mut class = ClassMapping { original: "", obfuscated: "", file_name: None, members: HashMap::new() };
+    let mut records = mapping.iter();
+    while let Some(record) = records.next() {
+        match record {
+            Ok(ProguardRecord::Class { original, obfuscated }) => {
+                class = ClassMapping { original, obfuscated, file_name: None, members: HashMap::new() };
+            }
+            _ => {}
+        }
+    }
+    assert!(class.original == "A");
+    core::mem::forget(class);
+}
+
+#[kani::proof]
+#[kani::unwind(6)]
+fn p_v1() {
+    // Result items, local iterator, no injection
+    let recs: [inject::Item; 1] = [rec_class("A", "a")];
+    let mut class = ClassMapping { original: "", obfuscated: "", file_name: None, members: HashMap::new() };
+    let mut records = recs.iter().cloned();
+    while let Some(record) = records.next() {
+        match record {
+            Ok(ProguardRecord::Class { original, obfuscated }) => {
+                class = ClassMapping { original, obfuscated, file_name: None, members: HashMap::new() };
+            }
+            _ => {}
+        }
+    }
+    assert!(class.original == "A");
+    core::mem::forget(class);
+}
+
+#[kani::proof]
+#[kani::unwind(6)]
+fn p_v2() {
+    // injection, but a single call, no loop
+    let recs: [inject::Item; 1] = [rec_class("A", "a")];
+    let src = inject::set(&recs);
+    let mapping = ProguardMapping::new(src);
+    let mut class = ClassMapping { original: "", obfuscated: "", file_name: None, members: HashMap::new() };
+    let mut records = mapping.iter();
+    if let Some(record) = records.next() {
+        match record {
+            Ok(ProguardRecord::Class { original, obfuscated }) => {
+                class = ClassMapping { original, obfuscated, file_name: None, members: HashMap::new() };
+            }
+            _ => {}
+        }
+    }
+    assert!(class.original == "A");
+    core::mem::forget(class);
+}
+
+#[kani::proof]
+#[kani::unwind(6)]
+fn p_v3() {
+    // injection + loop, class has no heap
+    let recs: [inject::Item; 1] = [rec_class("A", "a")];
+    let src = inject::set(&recs);
+    let mapping = ProguardMapping::new(src);
+    let mut class: Vec<u32> = Vec::new();
+    let mut records = mapping.iter();
+    while let Some(record) = records.next() {
+        match record {
+            Ok(ProguardRecord::Class { original, obfuscated }) => {
+                class = Vec::new();
+            }
+            _ => {}
+        }
+    }
+    assert!(class.len() == 0);
+}
+
+#[kani::proof]
+#[kani::unwind(6)]
+fn p_v4() {
+    let recs: [inject::Item; 1] = [rec_class("A", "a")];
+    let _src = inject::set(&recs);
+    let mut class: Vec<u32> = Vec::new();
+    let record = inject::item_at(0);
+    match record {
+        Ok(ProguardRecord::Class { original, obfuscated }) => {
+            class = Vec::new();
+        }
+        _ => {}
+    }
+    assert!(class.len() == 0);
+}
+
+#[kani::proof]
+#[kani::unwind(6)]
+fn p_v5() {
+    let recs: [inject::Item; 1] = [rec_class("A", "a")];
+    let mut class: Vec<u32> = Vec::new();
+    let record = recs[0].clone();
+    match record {
+        Ok(ProguardRecord::Class { original, obfuscated }) => {
+            class = Vec::new();
+        }
+        _ => {}
+    }
+    assert!(class.len() == 0);
+}
+
+#[kani::proof]
+#[kani::unwind(6)]
+fn p_v6() {
+    let recs: [inject::Item; 1] = [rec_class("A", "a")];
+    let _src = inject::set(&recs);
+    let mut class: Vec<u32> = Vec::new();
+    class = Vec::new();
+    assert!(class.len() == 0);
+}
+
+#[kani::proof]
+#[kani::unwind(6)]
+fn p_w1() {
+    inject::dbg_total(1);
+    let mut class: Vec<u32> = Vec::new();
+    class = Vec::new();
+    assert!(class.len() == 0);
+}
+#[kani::proof]
+#[kani::unwind(6)]
+fn p_w2() {
+    let _s = inject::dbg_dummy(1);
+    let mut class: Vec<u32> = Vec::new();
+    class = Vec::new();
+    assert!(class.len() == 0);
+}
+#[kani::proof]
+#[kani::unwind(6)]
+fn p_w3() {
+    let recs: [inject::Item; 1] = [rec_class("A", "a")];
+    inject::dbg_stream(&recs);
+    let mut class: Vec<u32> = Vec::new();
+    class = Vec::new();
+    assert!(class.len() == 0);
+}
+#[kani::proof]
+#[kani::unwind(6)]
+fn p_w4() {
+    let mut class: Vec<u32> = Vec::new();
+    class = Vec::new();
+    assert!(class.len() == 0);
+}
